@@ -93,7 +93,9 @@ def shot(rng, *, flat=False, twist=True, custom=0.15, look=True, cant=True, vacu
     s["atmo"] = atmo(rng, vacuum_ok)
     s["winds"] = winds(rng, wind_n, wind_max, range_ft)
     if rng.random() < 0.2:
-        s["_restate"] = True     # build.shot reaches this shot by modifying other objects (see build._restated_shot)
+        # build.shot reaches this shot by modifying other objects (see build._restated_shot): constructed final, used in a decoy
+        # state and put back (True) - or constructed in another state and given the final values by assignment ("assign")
+        s["_restate"] = rng.choice([True, "assign"])
     return s
 
 
